@@ -823,7 +823,9 @@ def convolve_templates(
     nbins = len(data)
     ntemps = len(temp_bank)
     convs = np.empty((ntemps, nbins), dtype=data.dtype)
-    data_pad = circular_pad_goodsize(data)
+    # The data are periodic over their own length: transform at exactly that
+    # length (padding to a larger size would repeat the first bins after the end).
+    data_pad = data
     data_fft = np.fft.rfft(data_pad)
     for itemp in range(ntemps):
         temp_kernel = temp_bank[itemp]
